@@ -356,13 +356,19 @@ pub fn run_trace(args: &[String]) {
         })));
         let mut pool = verif::PoolHandle::new(initial, max);
         let hold: Vec<u64> = (0..njobs).map(|_| rng.below(3) as u64 * 300).collect();
+        // some handlers end by panicking (Pool.tla EnvCrash): for the pool that is just another way a job ends
+        let crash: Vec<bool> = (0..njobs).map(|_| r % 3 == 2 && rng.chance(1, 3)).collect();
         for j in 1..=njobs {
             let c3 = ctl.clone();
             let d = hold[j - 1];
+            let boom = crash[j - 1];
             pool.execute(move || {
                 c3.log_ev("job_start", verif::wid(), j, 0);
                 std::thread::sleep(Duration::from_micros(d));
                 c3.log_ev("job_end", verif::wid(), j, 0);
+                if boom {
+                    panic!("verif: handler of job {} panics", j);
+                }
             });
             if rng.chance(1, 3) {
                 std::thread::sleep(Duration::from_micros(rng.below(400) as u64));
